@@ -8,6 +8,7 @@ package decoder
 // bounds, division, explicit panic) for every byte string.
 
 //@ func DecodeCRI
+//@   option check-nil yes
 //@   pure
 //@   ensures result1 == nil ==> sameblock(row.Time, data) && off(row.Time) == off(data) && nochr(row.Time, ' ')
 //@   ensures result1 == nil ==> len(row.Time) < len(data) && data[len(row.Time)] == ' '
@@ -46,6 +47,7 @@ package decoder
 //@   ensures result1 == nil ==> sameblock(result0.Log, data) && off(result0.Log) >= off(result0.User) + len(result0.User) + 3 && off(result0.Log) + len(result0.Log) == off(data) + len(data)
 
 //@ func spaceSplit
+//@   option check-nil yes
 //@   pure
 //@   ensures isnil(result) || fresh(result)
 //@   ensures allrange(result, 0, len(b)) && increasing(result)
@@ -78,6 +80,7 @@ package decoder
 // freshness is stated.)
 
 //@ func (*nginxErrorDecoder).Decode
+//@   option check-nil yes
 //@   pure
 //@   ghost ns int = 0
 //@   ghost s0 int = 0
@@ -135,6 +138,7 @@ package decoder
 // (trailing ", key: value" groups are cut off and returned as fields - Go map, not modelled).
 
 //@ func (*nginxErrorDecoder).extractCustomFields
+//@   option check-nil yes
 //@   pure
 //@   ensures !d.params.withCustomFields ==> result0 == data && isnil(result1)
 //@   ensures sameblock(result0, data) && off(result0) == off(data) && len(result0) <= len(data)
@@ -142,6 +146,7 @@ package decoder
 //@   loop 1 invariant sameblock(data, old(data)) && off(data) == off(old(data)) && len(data) <= len(old(data)) && !isnil(fields)
 
 //@ func syslogParsePriority
+//@   option check-nil yes
 //@   pure
 //@   ensures result2 == nil ==> 2 <= result1 && result1 <= 4 && result1 < len(data) && 0 <= result0 && result0 <= 191
 //@   ensures result2 == nil ==> data[0] == '<' && data[result1] == '>' && allchr(data[1:result1], '0', '9')
@@ -221,6 +226,7 @@ package decoder
 // first byte that is one of the given characters.
 
 //@ func (*syslogRFC3164Decoder).Decode
+//@   option check-nil yes
 //@   pure
 //@   ghost gpri int = 0
 //@   ghost gfac seq = ""
@@ -259,6 +265,7 @@ package decoder
 // leading space or digit, two-digit hour 00-23, minute and second 00-59.
 
 //@ func (*syslogRFC3164Decoder).validateTimestamp
+//@   option check-nil yes
 //@   pure
 //@   ensures result ==> len(ts) >= 16
 //@   ensures result ==> ts[3] == ' ' && ts[6] == ' ' && ts[9] == ':' && ts[12] == ':' && ts[15] == ' '
@@ -287,6 +294,7 @@ package decoder
 // model of its whole shape and took the solvers 0.6-5 s: left out, it would be flaky.)
 
 //@ func (*syslogRFC5424Decoder).Decode
+//@   option check-nil yes
 //@   pure
 //@   ghost gpri int = 0
 //@   ghost gfac seq = ""
@@ -349,6 +357,7 @@ package decoder
 // position depends on the fraction's length and is not restated here.)
 
 //@ func (*syslogRFC5424Decoder).validateTimestamp
+//@   option check-nil yes
 //@   pure
 //@   ensures result ==> len(ts) >= 20 && ts[4] == '-' && ts[7] == '-' && ts[10] == 'T' && ts[13] == ':' && ts[16] == ':'
 //@   ensures result ==> allchr(ts[:4], '0', '9') && allchr(ts[5:7], '0', '9') && allchr(ts[8:10], '0', '9') && allchr(ts[11:13], '0', '9') && allchr(ts[14:16], '0', '9') && allchr(ts[17:19], '0', '9')
@@ -357,6 +366,7 @@ package decoder
 //@   loop 1 invariant 2 <= i && i <= len(ts)
 
 //@ func (*syslogRFC5424Decoder).parseStructuredData
+//@   option check-nil yes
 //@   pure
 //@   ensures result2 ==> result1 >= 0
 //@   loop 1 invariant 0 <= offset
@@ -369,6 +379,7 @@ package decoder
 // "-" followed by a space; otherwise it is the bytes up to the first space.
 
 //@ func (*syslogRFC5424Decoder).readUntilSpaceOrNilValue
+//@   option check-nil yes
 //@   pure
 //@   ensures result1 ==> (result0 == 0 && len(data) >= 2) || (0 < result0 && result0 < len(data))
 //@   ensures result1 && result0 == 0 ==> data[0] == '-' && data[1] == ' '
@@ -376,6 +387,7 @@ package decoder
 //@   ensures !result1 && len(data) >= 2 ==> data[0] == ' ' || nochr(data, ' ')
 
 //@ func (*CSVDecoder).Decode
+//@   option check-nil yes
 //@   modifies data
 //@   ensures result1 == nil ==> typeis(result0, "github.com/ozontech/file.d/decoder.CSVRow")
 //@   loop 1 invariant !isnil(buffers) && fresh(buffers) && (isnil(buffers.recordBuffer) || fresh(buffers.recordBuffer)) && (isnil(buffers.fieldIndexes) || fresh(buffers.fieldIndexes))
@@ -396,6 +408,7 @@ package decoder
 //@     pure
 
 //@ func atoi
+//@   option check-nil yes
 //@   pure
 //@   ensures result1 ==> result0 >= 0
 //@   ensures result1 == (len(b) > 0 && allchr(b, '0', '9'))
@@ -457,6 +470,7 @@ package decoder
 // the sort permutes them: assumed at the cut, listed), so every slice is in range.
 
 //@ func (*jsonDecoder).cutFieldsBySize
+//@   option check-nil yes
 //@   option allow-exit yes
 //@   option inline-closures yes
 //@   ghost gidx int = 0
@@ -474,6 +488,7 @@ package decoder
 // mutex whenever there are two or more entries - whatever their keys are.
 
 //@ func NewJsonDecoder
+//@   option check-nil yes
 //@   ensures result1 == nil ==> (len(as(result0, "jsonDecoder").params.maxFieldsSize) >= 2 ==> as(result0, "jsonDecoder").mu != nil)
 //@   callee extractJsonParams(p) (r, e)
 //@     pure
@@ -783,6 +798,7 @@ package decoder
 // row is accepted.
 
 //@ func (*CSVDecoder).GenerateColumnName
+//@   option check-nil yes
 //@   pure
 //@   requires i >= 0
 //@   ghost nitoa int = 0
@@ -797,6 +813,7 @@ package decoder
 //@     set gs := r
 
 //@ func (*CSVDecoder).CheckInvalidLine
+//@   option check-nil yes
 //@   pure
 //@   option allow-exit yes
 //@   ghost nfatal int = 0
@@ -865,6 +882,7 @@ package decoder
 // Fidelity of the parse itself is insane-json's (third party): not stated.
 
 //@ func (*jsonDecoder).Decode
+//@   option check-nil yes
 //@   option allow-exit yes
 //@   ghost ncut int = 0
 //@   ghost gcut int = 0
@@ -983,6 +1001,7 @@ package decoder
 //@   ensures result == (r != 0 && r != '"' && r != '\r' && r != '\n')
 
 //@ func extractCSVParams
+//@   option check-nil yes
 //@   pure
 //@   ghost n_cols int = 0
 //@   ghost n_prefix int = 0
@@ -1080,6 +1099,7 @@ package decoder
 // (NewProtobufDecoder itself - protocompile, reflection - is outside the tool's reach.)
 
 //@ func extractProtobufParams
+//@   option check-nil yes
 //@   pure
 //@   ghost n_file int = 0
 //@   ghost n_msg int = 0
@@ -1121,6 +1141,7 @@ package decoder
 // otherwise the decoder holds exactly the parsed parameters.
 
 //@ func NewNginxErrorDecoder
+//@   option check-nil yes
 //@   ghost nx int = 0
 //@   ghost gerr bool = false
 //@   ghost gwcf bool = false
@@ -1134,6 +1155,7 @@ package decoder
 //@     set gwcf := r.withCustomFields
 
 //@ func NewSyslogRFC3164Decoder
+//@   option check-nil yes
 //@   ghost nx int = 0
 //@   ghost gerr bool = false
 //@   ghost gfac seq = ""
@@ -1150,6 +1172,7 @@ package decoder
 //@     set gsev := r.severityFormat
 
 //@ func NewSyslogRFC5424Decoder
+//@   option check-nil yes
 //@   ghost nx int = 0
 //@   ghost gerr bool = false
 //@   ghost gfac seq = ""
@@ -1166,6 +1189,7 @@ package decoder
 //@     set gsev := r.severityFormat
 
 //@ func NewCSVDecoder
+//@   option check-nil yes
 //@   ghost nx int = 0
 //@   ghost gerr bool = false
 //@   ghost gdelim int = 0
@@ -1250,6 +1274,7 @@ package decoder
 // (The error of that parse is dropped by the code - protojson output is valid JSON.)
 
 //@ func (*protobufDecoder).Decode
+//@   option check-nil yes
 //@   ghost num int = 0
 //@   ghost gunerr bool = false
 //@   ghost nmar int = 0
